@@ -648,11 +648,20 @@ class GraphBasedModelConstructor:
 
         novel_monoexon = set()
         clustered_polya_reads = self.cluster_monoexons(polya_reads)
-        novel_monoexon.update(self.generate_monoexon_from_clustered(clustered_polya_reads, True))
         clustered_polyt_reads = self.cluster_monoexons(polyt_reads)
-        novel_monoexon.update(self.generate_monoexon_from_clustered(clustered_polyt_reads, False))
+        # a candidate is dropped when an already reported model covers more than half of it, so the order matters:
+        # clusters of both strands are taken by decreasing read support, clusters with equal support do not compete
+        candidates = [(len(reads), pos, True) for pos, reads in clustered_polya_reads.items()] + \
+                     [(len(reads), pos, False) for pos, reads in clustered_polyt_reads.items()]
+        for support in sorted(set(c[0] for c in candidates), reverse=True):
+            reported_models = list(self.transcript_model_storage)
+            for _, pos, forward in [c for c in candidates if c[0] == support]:
+                reads = clustered_polya_reads[pos] if forward else clustered_polyt_reads[pos]
+                novel_monoexon.update(self.generate_monoexon_from_clustered({pos: reads}, forward, reported_models))
 
-    def generate_monoexon_from_clustered(self, clustered_reads, forward=True):
+    def generate_monoexon_from_clustered(self, clustered_reads, forward=True, reported_models=None):
+        if reported_models is None:
+            reported_models = self.transcript_model_storage
         cutoff = self.params.min_novel_count
         result = set()
         for three_prime_pos in clustered_reads.keys():
@@ -675,7 +684,7 @@ class GraphBasedModelConstructor:
 
             is_valid = True
             half_len = interval_len(coordinates) / 2
-            for existing_model in self.transcript_model_storage:
+            for existing_model in reported_models:
                 if any(intersection_len(exon, coordinates) > half_len for exon in existing_model.exon_blocks):
                     is_valid = False
                     break
